@@ -2099,6 +2099,78 @@ def check_history(ctx, res, case):
     res.traces_validated += 1
 
 
+# ---- names with a directory component
+
+
+def tree_listing():
+    out = {}
+    for root, _, files in os.walk('.'):
+        for f in files:
+            q = os.path.normpath(os.path.join(root, f))
+            if q != 'biogeme.toml':
+                out[q] = hashlib.sha1(Path(q).read_bytes()).hexdigest()
+    return out
+
+
+def gen_path_history(rng):
+    """fresh-name histories where the base name carries a directory: a sub-directory, './', '../<cwd>/', an absolute path"""
+    kinds = ['sub', 'dot', 'abs', 'deep', 'plain']
+    ops = []
+    for _ in range(rng.randint(3, 9)):
+        ops.append([rng.choice(['newname', 'newname', 'dump', 'html', 'pickle']), rng.choice(kinds), rng.choice(['m', 'survey', 'a.b']), rng.choice(['html', 'dat', 'pickle'])])
+    return {'kind': 'path_history', 'ops': ops, 'pre': rng.random() < 0.5}
+
+
+def check_path_history(ctx, res, case):
+    import pandas as pd
+    import biogeme.database as db
+    from biogeme.filenames import get_new_file_name
+
+    res.count(case, nontrivial=True)
+    with core.scratch(TOML):
+        os.makedirs('out/deep er')
+        cwd = os.getcwd()
+        prefix = {'sub': 'out/', 'dot': './', 'abs': cwd + '/out/', 'deep': 'out/deep er/', 'plain': ''}
+        if case.get('pre'):
+            for q in ('out/m.html', 'm.html', 'out/survey_dumped.dat', 'out/deep er/m~00.html'):
+                Path(q).write_text('pre-existing ' + q, encoding='utf-8')
+        cur = tree_listing()
+        for i, (what, kind, base, ext) in enumerate(case['ops']):
+            name = prefix[kind] + base
+            res.tally(f'path history:{what}:{kind}')
+            try:
+                if what == 'newname':
+                    got = get_new_file_name(name, ext)
+                    if os.path.exists(got):
+                        res.violate(f'step {i}: get_new_file_name({name!r}, {ext!r}) returns {got!r}, which exists', case, got, 'a name that does not exist', where='get_new_file_name: name with a directory')
+                        return
+                    Path(got).write_text(f'op{i}', encoding='utf-8')
+                elif what == 'dump':
+                    got = db.Database(name, pd.DataFrame({'x': [1.0, float(i)]})).dump_on_file()
+                else:
+                    spec = {'kind': 'results', 'model': name, 'names': ['b'], 'values': [float(i)], 'bounds': [[None, None]], 'H': [[-2.0]], 'hkind': 'regular', 'bhhh': [[1.0]],
+                            'g': [0.0], 'bootstrap': None, 'logLike': -10.0, 'initLogLike': -12.0, 'nullLogLike': None, 'sampleSize': 9, 'numberOfObservations': 9,
+                            'userNotes': f'op{i}', 'convergence': True, 'threshold': None}
+                    r = make_results(spec)
+                    if what == 'html':
+                        r.write_html()
+                        got = r.data.htmlFileName
+                    else:
+                        got = r.write_pickle()
+            except Exception as e:  # noqa: BLE001
+                res.diverge(f'step {i} of a history with directory names raised {type(e).__name__}: {str(e)[:120]}', case, 'a new file', type(e).__name__)
+                return
+            new = tree_listing()
+            changed = sorted(q for q in cur if new.get(q) != cur[q])
+            added = sorted(set(new) - set(cur))
+            if changed or added != [os.path.normpath(os.path.relpath(got, cwd))]:
+                res.violate(f'step {i} ({what} {name!r}): existing files modified {changed}, files added {added}, name reported {got!r}', case, [changed, added],
+                            'exactly one new file, nothing modified', where='get_new_file_name: name with a directory')
+                return
+            cur = new
+    res.traces_validated += 1
+
+
 # ---- recycle
 
 
@@ -2422,6 +2494,8 @@ def _run_case(ctx, res, case, table):
         check_file_case(ctx, res, case, table)
     elif k == 'param_history':
         check_param_history(ctx, res, case, table)
+    elif k == 'path_history':
+        check_path_history(ctx, res, case)
     elif k == 'param_name':
         check_param_name_case(ctx, res, case, table)
     elif k == 'results':
@@ -2538,6 +2612,8 @@ def check(ctx) -> Result:
         run_case(ctx, res, gen_history(rng, long=True), table)
     for i in range(ctx.n(60, 700)):
         run_case(ctx, res, gen_backup_history(rng), table)
+    for i in range(ctx.n(40, 500)):
+        run_case(ctx, res, gen_path_history(rng), table)
     for i in range(ctx.n(5, 30)):
         n = rng.choice([1, 2, 3, 11, 50, 100, 101]) if i else 101
         run_case(ctx, res, gen_recycle(rng, n), table)
